@@ -17,6 +17,7 @@ from __future__ import annotations
 
 import json
 import random
+import re
 import sys
 from pathlib import Path
 from typing import Any, Dict, List, Optional, Tuple
@@ -347,9 +348,100 @@ def _job(arg):
     return len(recs), int(verdict[2]), bad[:500], len(bad), len(sem_recs), sem_bad
 
 
+def il_graph(arch, enc: bytes):
+    """control-flow graph of the lifted IL of one instruction: per node the TEMP registers read / written and the successors"""
+    from binja_test_mocks.mock_llil import MockLowLevelILFunction
+    f = MockLowLevelILFunction()
+    if arch.get_instruction_low_level_il(bytes(enc) + bytes(6), 0x4000, f) is None:
+        return None
+    ils = list(f.ils)
+    label_at = {}
+    for i, il in enumerate(ils):
+        if type(il).__name__ == "MockLabel":
+            label_at[id(il.label)] = i + 1
+
+    def temps_read(x, skip_dest=False):
+        out = []
+        ops = getattr(x, "ops", None)
+        if ops is None:
+            return out
+        opname = str(getattr(x, "op", ""))
+        for j, o in enumerate(ops):
+            if skip_dest and j == 0:
+                continue
+            if type(o).__name__ == "MockReg":
+                if opname.startswith("REG") and str(o.name).startswith("TEMP"):
+                    out.append(int(str(o.name)[4:]))
+            elif hasattr(o, "ops"):
+                out += temps_read(o)
+        return out
+    nodes = []
+    n = len(ils)
+    for i, il in enumerate(ils):
+        opname = str(getattr(il, "op", ""))
+        nxt = i + 2 if i + 1 < n else 0
+        rd, wr, succ = [], [], [nxt]
+        if type(il).__name__ == "MockIfExpr":
+            rd = temps_read(il.ops[0]) if hasattr(il.ops[0], "ops") else []
+            succ = [label_at.get(id(il.ops[1]), 0), label_at.get(id(il.ops[2]), 0)]
+        elif type(il).__name__ == "MockGoto" or opname == "GOTO":
+            lab = getattr(il, "label", None) or (il.ops[0] if il.ops else None)
+            succ = [label_at.get(id(lab), 0)]
+        elif opname.startswith("SET_REG"):
+            rd = temps_read(il, skip_dest=True)
+            d = il.ops[0]
+            if type(d).__name__ == "MockReg" and str(d.name).startswith("TEMP"):
+                wr = [int(str(d.name)[4:])]
+        else:
+            rd = temps_read(il)
+            if opname.startswith(("JUMP", "RET", "CALL")) and not opname.startswith("CALL"):
+                succ = [0]
+        nodes.append({"rd": sorted(set(rd)), "wr": wr, "succ": sorted(set(succ))})
+    return nodes
+
+
+def temp_def_use(cr: CheckRun, en) -> None:
+    """static complement: TLC explores every path of the lifted IL of every distinct instruction shape"""
+    import decode_harness as dh
+    arch, _ = dh._setup()
+    shapes: Dict[str, Tuple[bytes, Any]] = {}
+    for enc in en.valid_structures(cr.tier, cr.seed):
+        try:
+            g = il_graph(arch, enc)
+        except Exception:      # noqa: BLE001
+            g = None
+        if not g:
+            continue
+        k = json.dumps(g)
+        shapes.setdefault(k, (enc, g))
+    progs = [g for (_, g) in shapes.values()]
+    encs = [e for (e, _) in shapes.values()]
+    d = vlib.scratch("C07")
+    tf = d / "ilgraphs.json"
+    tf.write_text(json.dumps(progs))
+    res = run_tlc(SD, "TempDefUse", "TempDefUse.cfg", workers=vlib.NCPU, env={"TRACE_FILE": str(tf)}, tag="C07-defuse", timeout=3000, heap="6g")
+    cr.add_tlc("TempDefUse (DefBeforeUse over the IL graphs of every instruction shape)", res)
+    cr.cov["il_shapes"] = len(progs)
+    if res.invariant_violated:
+        m = re.search(r"/\\ p = (\d+)", res.out)
+        m2 = re.search(r"/\\ pc = (\d+)(?![\s\S]*/\\ pc = )", res.out)
+        pi = int(m.group(1)) if m else 1
+        enc = encs[pi - 1]
+        node = int(m2.group(1)) if m2 else 0
+        g = progs[pi - 1]
+        rd = g[node - 1]["rd"] if 0 < node <= len(g) else []
+        cr.violation(f"DefBeforeUse:op{en.opcode_of(enc):02X}", f"the lifted IL of {enc.hex()} reads scratch register(s) TEMP{rd} at IL node {node} on a path where no earlier node of the "
+                     f"same instruction wrote them (the value comes from whatever executed before)", {"kind": "defuse", "bytes": list(enc)})
+    elif "Error:" in res.out:
+        raise MachineryError("TempDefUse failed:\n" + res.out[-1500:])
+    tf.unlink()
+
+
 def run(cr: CheckRun) -> None:
     eh, en = c04._imports()
     vlib.build_vh()
+    temp_def_use(cr, en)
+    cr.mark("defuse")
     groups, hist_encs, straight = make_groups(en, cr.tier, cr.seed)
     nsh = vlib.NCPU * 2
     results = vlib.pmap(_job, [(i, groups[i::nsh], hist_encs, straight, cr.seed) for i in range(nsh)])
